@@ -132,7 +132,41 @@ def r_cpu_helpers(e, R):
     lits = {x.value for x in ast.walk(cg.node) if isinstance(x, ast.Constant) and isinstance(x.value, str) and x.value.startswith("/sys/fs/cgroup")}
     R.check(lits == {"/sys/fs/cgroup/cpu.max", "/sys/fs/cgroup/cpu/cpu.cfs_quota_us", "/sys/fs/cgroup/cpu/cpu.cfs_period_us"}, "R-CPU-HELPERS",
             "cgroup helper reads cpu.max (v2) and cfs_quota_us / cfs_period_us (v1)", cg.short, str(sorted(lits)), "cgroup file layout changed", e.loc(cg, cg.node))
-    R.floor("R-CPU-HELPERS", 8)
+    # ---- which files are read in which layout (scenario obligations): v2 wins, else v1 (both files), else no limit
+    from . import scenario as SC
+    fvars = {}
+    for n in func_nodes(cg):
+        if isinstance(n, ast.Assign) and isinstance(n.targets[0], ast.Name) and isinstance(n.value, ast.Constant) and isinstance(n.value.value, str) \
+                and n.value.value.startswith("/sys/fs/cgroup"):
+            fvars[n.targets[0].id] = n.value.value
+    v2 = [k for k, v in fvars.items() if v.endswith("cpu.max")]
+    v1 = [k for k, v in fvars.items() if "cfs_" in v]
+    if len(v2) != 1 or len(v1) != 2:
+        raise AnalysisError("cgroup helper: file name variables not recognised")
+    exists = lambda nm: (lambda x: isinstance(x, ast.Call) and norm(x.func).endswith("path.exists") and x.args and isinstance(x.args[0], ast.Name) and x.args[0].id == nm)
+    opens = lambda nm: (lambda n: any(isinstance(c.func, ast.Name) and c.func.id == "open" and c.args and isinstance(c.args[0], ast.Name) and c.args[0].id == nm
+                                      for c in calls_in(n)) or (n.kind == "with_enter" and isinstance(n.ast.context_expr, ast.Call) and norm(n.ast.context_expr.func) == "open"
+                                                                and n.ast.context_expr.args and isinstance(n.ast.context_expr.args[0], ast.Name) and n.ast.context_expr.args[0].id == nm))
+    dflt = lambda n: n.kind == "stmt" and isinstance(n.ast, ast.Assign) and isinstance(n.ast.value, ast.Constant) and n.ast.value.value == "max"
+    SC.must(e, R, "R-CPU-HELPERS", cg, "cgroup v2 (cpu.max exists)", [(exists(v2[0]), "T")], opens(v2[0]), "reads cpu.max", "a cgroup v2 CPU limit is ignored: cpu_count() oversubscribes the container")
+    for nm in v1:
+        SC.never(e, R, "R-CPU-HELPERS", cg, "cgroup v2 (cpu.max exists)", [(exists(v2[0]), "T")], opens(nm), f"a read of the v1 file {fvars[nm]}", "v1 files override the v2 limit")
+        SC.must(e, R, "R-CPU-HELPERS", cg, "cgroup v1 (both cfs files exist, no cpu.max)", [(exists(v2[0]), "F")] + [(exists(k), "T") for k in v1], opens(nm),
+                f"reads {fvars[nm].rsplit('/', 1)[-1]}", "a cgroup v1 CPU limit is ignored")
+    SC.never(e, R, "R-CPU-HELPERS", cg, "no cpu.max file", [(exists(v2[0]), "F")], opens(v2[0]), "an open of cpu.max", "FileNotFoundError out of cpu_count() on cgroup v1 / non-Linux hosts")
+    for miss in v1:
+        facts = [(exists(v2[0]), "F")] + [(exists(k), "F" if k == miss else "T") for k in v1]
+        SC.must(e, R, "R-CPU-HELPERS", cg, f"no cgroup files ({fvars[miss].rsplit('/', 1)[-1]} missing)", facts, dflt, "assumes no limit ('max')", "cpu_count() fails on hosts without cgroup files")
+        for nm in v1:
+            SC.never(e, R, "R-CPU-HELPERS", cg, f"no cgroup files ({fvars[miss].rsplit('/', 1)[-1]} missing)", facts, opens(nm), f"an open of {fvars[nm].rsplit('/', 1)[-1]}",
+                     "FileNotFoundError out of cpu_count()")
+    # affinity helper: sched_getaffinity is used exactly when the platform has it
+    has = lambda x: isinstance(x, ast.Call) and isinstance(x.func, ast.Name) and x.func.id == "hasattr" and len(x.args) == 2 and isinstance(x.args[1], ast.Constant) \
+        and x.args[1].value == "sched_getaffinity"
+    sga = lambda n: any(norm(c.func).endswith("sched_getaffinity") for c in calls_in(n))
+    SC.must(e, R, "R-CPU-HELPERS", af, "os.sched_getaffinity exists", [(has, "T")], sga, "asks the OS for the affinity mask", "the affinity mask (taskset, container cpusets) is ignored")
+    SC.never(e, R, "R-CPU-HELPERS", af, "os.sched_getaffinity does not exist", [(has, "F")], sga, "a call of os.sched_getaffinity", "AttributeError out of cpu_count() on macOS / Windows")
+    R.floor("R-CPU-HELPERS", 22)
 
 
 def r_cpu_physical(e, R):
